@@ -16,6 +16,7 @@
     k <name> stack <srcs> <pos>:<dim> via=<arity>   TensorStack over tensor operands (C02 View model) → ok shape=… | none
     k <name> chain <srcs> <dim> via=<arity>         TensorChain
     elen <A> via=…                                  euclidean_length of a vector Tensor / Matrix (fp only) → value=… | panic(k)
+    fdeg <op> …                                     f64 degenerate-data oracle (harness side only) → agree
     neg <A> via=<form>                              matrices only
     dot <A> <B> via=<form>                          scalar_product (1-D tensors)   → value=… | panic(k)
 
@@ -249,6 +250,10 @@ def init : State := .none
 
 def step (s : State) (toks : List String) : State × String :=
   match toks with
+  -- degenerate float data (zeros of both signs, infinities, NaN, subnormals): the harness compares
+  -- the tensor API, the matrix API and a direct left fold bit for bit and says `agree`; floats are
+  -- never compared with this model (its statement about them is the exact-arithmetic theorems)
+  | "fdeg" :: _ => (s, "agree")
   | ["@", "fp"] => (.fp {}, "ok")
   | ["@", "rat"] => (.rat {}, "ok")
   | ["@", "i64"] => (.int {}, "ok")
